@@ -197,20 +197,30 @@ def walk(cfg: CFG, start: int, env: Env, stop: Callable[[int], bool] = lambda n:
                 atom_names[t] = names_in(ast.parse(t, mode='eval'))
             except SyntaxError:
                 atom_names[t] = set()
-    seen: Set[Tuple[int, frozenset]] = set()
+    seen: Set[Tuple[int, frozenset, frozenset]] = set()
     out: Set[int] = set()
-    work: List[Tuple[int, frozenset]] = [(start, frozenset())]
+    # state: (node, atoms evaluated so far on this path, atoms whose valuation no longer applies)
+    # An assignment invalidates an atom only if the atom was already evaluated before it on this path: the valuation
+    # describes the value the atom has when it is (first) tested.
+    work: List[Tuple[int, frozenset, frozenset]] = [(start, frozenset(), frozenset())]
+    test_atoms: Dict[int, frozenset] = {}
     while work:
-        n, dead = work.pop()
-        if (n, dead) in seen:
+        n, used, dead = work.pop()
+        if (n, used, dead) in seen:
             continue
-        seen.add((n, dead))
+        seen.add((n, used, dead))
         out.add(n)
         if stop(n) or n == loop_header_stop and n != start:
             continue
         nd = cfg.nodes[n]
-        if nd.kind in ('test', 'assert') and nd.kind == 'test':
-            v = env.eval(nd.expr, set(dead)) if not isinstance(nd.stmt, getattr(ast, 'Match', ())) else None
+        if nd.kind == 'test':
+            is_match = isinstance(nd.stmt, getattr(ast, 'Match', ()))
+            v = env.eval(nd.expr, set(dead)) if not is_match else None
+            if n not in test_atoms:
+                ta = set(collect_atoms(nd.expr)) if not is_match else set()
+                ta |= {t for t in list(env.ints) + list(env.strs) if t in _norm(nd.expr) or t in norm(nd.expr)}
+                test_atoms[n] = frozenset(t for t in ta if t in atom_names or t in env.atoms)
+            used2 = used | test_atoms[n]
             if v is None and track_undecided is not None:
                 track_undecided.add(n)
             if v is None and unknown == 'block':
@@ -219,18 +229,18 @@ def walk(cfg: CFG, start: int, env: Env, stop: Callable[[int], bool] = lambda n:
                 if l in skip_labels: continue
                 if v is True and l == 'false': continue
                 if v is False and l == 'true': continue
-                work.append((b, dead))
+                work.append((b, used2, dead))
             continue
         newdead = dead
         if nd.kind in ('stmt', 'for', 'with'):
             asg = assigned_names(nd.stmt)
             if asg:
-                kill = {t for t, ns in atom_names.items() if ns & asg}
+                kill = {t for t, ns in atom_names.items() if ns & asg and t in used}
                 if kill:
                     newdead = dead | frozenset(kill)
         for b, l in cfg.succ[n]:
             if l in skip_labels: continue
-            work.append((b, newdead))
+            work.append((b, used, newdead))
     return out
 
 
